@@ -6,6 +6,7 @@ For the world of a case every read-only entry point is run cleanly, and then,
 for every callback c and EVERY k in 1..N_c (N_c = invocations in the clean run),
 re-run with a wrapper that raises at the k-th invocation.
 """
+from eglib import h
 from hypothesis import strategies as st
 
 from eglib import graphs
@@ -113,11 +114,11 @@ def entries(vs, ls, u, start, sub):
     def pv(net):
         return ([dict(n) for n in net.nodes], [dict(e) for e in net.edges])
 
-    kw = dict(direction_sensitive=1, unknown_handling=1)
+    kw = h.kw(1, 1)
     E = [
-        ("neighbors(filterfunc)", lambda f: [ix(helpers.neighbors(v, 1, 1, f)) for v in vs], lambda e, v: True),
-        ("neighbors(filterfunc,FORWARD)", lambda f: [ix(helpers.neighbors(v, 0, 1, f)) for v in vs], lambda e, v: vi[id(v)] % 2 == 0),
-        ("find_links(filterfunc)", lambda f: [sorted(li[id(l)] for l in helpers.find_links(a, b, False, 1, f)) for a in vs for b in vs], lambda e: True),
+        ("neighbors(filterfunc)", lambda f: [ix(h.neighbors(v, 1, 1, f)) for v in vs], lambda e, v: True),
+        ("neighbors(filterfunc,FORWARD)", lambda f: [ix(h.neighbors(v, 0, 1, f)) for v in vs], lambda e, v: vi[id(v)] % 2 == 0),
+        ("find_links(filterfunc)", lambda f: [sorted(li[id(l)] for l in h.find_links(a, b, False, 1, f)) for a in vs for b in vs], lambda e: True),
         ("bft(ff_via)", lambda f: ix(B.bft(u, start, ff_via=f, **kw)), lambda e, v: True),
         ("ibft(ff_result)", lambda f: ix(B.ibft(u, start, ff_result=f, **kw)), lambda v: True),
         ("bft(ff_via,None-universe)", lambda f: ix(B.bft(None, start, ff_via=f, **kw)), lambda e, v: True),
@@ -141,8 +142,8 @@ def entries(vs, ls, u, start, sub):
          lambda v: (plaintext.basic_render(sub, rfunc=title), title(v))[1]),
         ("render_to_plantuml_src(user_render_func re-entrant)", lambda f: plantuml.render_to_plantuml_src(u, opts(f)),
          lambda v, o: (plantuml.render_to_plantuml_src(sub, opts()), "object %s\n" % title(v))[1]),
-        ("neighbors(filterfunc re-entrant)", lambda f: [ix(helpers.neighbors(v, 1, 1, f)) for v in vs],
-         lambda e, v: (helpers.neighbors(v, 1, 1) if v is not None else None, True)[1]),
+        ("neighbors(filterfunc re-entrant)", lambda f: [ix(h.neighbors(v, 1, 1, f)) for v in vs],
+         lambda e, v: (h.neighbors(v, 1, 1) if v is not None else None, True)[1]),
         ("bft(ff_via re-entrant)", lambda f: ix(B.bft(u, start, ff_via=f, **kw)),
          lambda e, v: (B.bft(sub, sub.vertices[0], **kw), True)[1]),
         # no callback: clean run only
